@@ -1,7 +1,6 @@
 // shared by c07b_bcast / c07c_where / c06c_bcastview: constant-shape arrays of symbolic longs and NumPy's broadcast read
 #pragma once
-#include "common.hpp"
-#include "nmtools/array/ndarray.hpp"
+#include "cview.hpp"
 #include "nmtools/array/view/ufuncs/subtract.hpp"
 #include "nmtools/array/view/ufuncs/add.hpp"
 #include "nmtools/array/view/ufuncs/less.hpp"
@@ -11,33 +10,27 @@
 #include "nmtools/array/view/transpose.hpp"
 #include "nmtools/array/view/broadcast_to.hpp"
 #include "nmtools/array/view/broadcast_arrays.hpp"
-#include "nmtools/utility/unwrap.hpp"
-using namespace ob;
-namespace na = nmtools::array; namespace view = nmtools::view;
-template <size_t... E> using cshape = nmtools_tuple<meta::ct<E>...>;
-template <size_t... E> using carr = na::ndarray_t<std::array<long,(E * ... * 1)>, cshape<E...>>;
 
-// broadcast read: element of `a` (extents E...) at the index (i,j,k) of a rank-3 (or (j,k) of a rank-2) result, NumPy's rule:
+// an operand together with its (stated) extents; scalars are passed as they are
+template <class A, size_t... E> struct opnd { const A& arr; static constexpr size_t rank = sizeof...(E); static constexpr size_t e[sizeof...(E) ? sizeof...(E) : 1] = {E...}; };
+template <size_t... E, class A> inline opnd<A,E...> OP(const A& a) { return {a}; }
+template <class X> inline decltype(auto) raw(const X& x) { if constexpr (std::is_arithmetic_v<X>) return (x); else return (x.arr); }
+// broadcast read: element of the operand at the index (i,j,k) of a rank-3 (or (j,k) of a rank-2) result, NumPy's rule:
 // operands are aligned at the trailing axis, an extent-1 axis reads index 0, missing leading axes are dropped
-template <class T> struct ext_of;
-template <size_t N, unsigned long... E> struct ext_of<na::ndarray_t<std::array<long,N>, nmtools_tuple<meta::integral_constant<unsigned long,E>...>>> { static constexpr size_t rank = sizeof...(E); static constexpr size_t e[sizeof...(E)] = {E...}; };
-template <class A> inline long rd3(const A& a, size_t i, size_t j, size_t k)
+template <class X> inline long rd3(const X& x, size_t i, size_t j, size_t k)
 {
-    if constexpr (std::is_arithmetic_v<A>) return a;
+    if constexpr (std::is_arithmetic_v<X>) return x;
     else {
-        using X = ext_of<A>;
-        if constexpr (X::rank == 3) return a(X::e[0] == 1 ? 0 : i, X::e[1] == 1 ? 0 : j, X::e[2] == 1 ? 0 : k);
-        else if constexpr (X::rank == 2) return a(X::e[0] == 1 ? 0 : j, X::e[1] == 1 ? 0 : k);
-        else return a(X::e[0] == 1 ? 0 : k);
+        if constexpr (X::rank == 3) return x.arr(X::e[0] == 1 ? 0 : i, X::e[1] == 1 ? 0 : j, X::e[2] == 1 ? 0 : k);
+        else if constexpr (X::rank == 2) return x.arr(X::e[0] == 1 ? 0 : j, X::e[1] == 1 ? 0 : k);
+        else return x.arr(X::e[0] == 1 ? 0 : k);
     }
 }
-template <class A> inline long rd2(const A& a, size_t j, size_t k)
+template <class X> inline long rd2(const X& x, size_t j, size_t k)
 {
-    if constexpr (std::is_arithmetic_v<A>) return a;
+    if constexpr (std::is_arithmetic_v<X>) return x;
     else {
-        using X = ext_of<A>;
-        if constexpr (X::rank == 2) return a(X::e[0] == 1 ? 0 : j, X::e[1] == 1 ? 0 : k);
-        else return a(X::e[0] == 1 ? 0 : k);
+        if constexpr (X::rank == 2) return x.arr(X::e[0] == 1 ? 0 : j, X::e[1] == 1 ? 0 : k);
+        else return x.arr(X::e[0] == 1 ? 0 : k);
     }
 }
-
